@@ -1255,6 +1255,8 @@ def run(rep: Report, ctx: Any) -> str:
     _names_bound(rep, ctx, universe)
     # ---- R01.13 -------------------------------------------------------------------------------------------------------------------------
     _imports_conserved(rep, ctx)
+    # ---- R01.14 -------------------------------------------------------------------------------------------------------------------------
+    _sibling_modules_named_as_written(rep, ctx)
     return LEVEL
 
 
@@ -1387,6 +1389,123 @@ def _imports_conserved(rep: Report, ctx: Any) -> None:
                       f"the loop that prints the import lines of the host leaves some out ({bad})", where=f"{PKG}/templates/{tn_}:{lp.lineno}",
                       lhs=expr_text(lp.iter), rhs="ordering filters only, no loop filter")
     rep.floor("import_line_loops", n_loops, 3)
+
+
+# ---- R01.14 ---------------------------------------------------------------------------------------------------------------------------
+# A module of the generated package exists under the name the builder writes it: the stem expression E of a path `<dir> / f"{E}.py"`
+# in the module that writes the tree (PythonIdentifier(endpoint.name, prefix), <model>.class_info.module_name).  Template text that
+# imports a sibling module through a hole (`from . import {{ H }}`, `from .{{ H }} import ...`, `from .pkg.{{ H }} import`) refers
+# to a file only when H is the same derivation: the same function of the same field of the element.  Both sides are brought to one
+# spelling - the element at hand is `_`; functions the environment offers to templates under another name (globals bound to a lambda,
+# TEMPLATE_FILTERS) are the functions they stand for; `utils.` / `self.` qualification dropped - and compared.  (That the element
+# ranges over the same collection as the loop that writes the files is not compared.)
+_MODULE_HOLE = re.compile(r"(?:^|\n)[ \t]*(?:from[ \t]+\.+(?:\w+\.)*|from[ \t]+\.+[ \t]+import[ \t]+(?:\w+[ \t]*,[ \t]*)*)$")
+
+
+def _sibling_modules_named_as_written(rep: Report, ctx: Any) -> None:
+    import copy
+
+    rep.rule("R01.14", "a sibling module that template text imports through a hole is named by the derivation under which the builder "
+                       "writes a module file (the stem of a path `<dir> / f\"{E}.py\"`): same function of the same field")
+    ix, jx = ctx.py, ctx.jinja
+    proj = ix.cls("Project")
+    writer_mod = proj.module
+
+    class Canon(ast.NodeTransformer):
+        def __init__(self, local: set[str], once: dict[str, ast.AST], depth: int = 0) -> None:
+            self.local, self.once, self.depth = local, once, depth
+
+        def visit_Name(self, n: ast.Name) -> ast.AST:
+            if n.id in self.once and self.depth < 4:
+                return Canon(self.local, self.once, self.depth + 1).visit(copy.deepcopy(self.once[n.id]))
+            return ast.Name(id="_", ctx=ast.Load()) if n.id in self.local else n
+
+        def visit_Attribute(self, n: ast.Attribute) -> ast.AST:
+            if isinstance(n.value, ast.Name) and n.value.id in ("utils", "self") and n.value.id not in self.local:
+                return ast.Name(id=n.attr, ctx=ast.Load())
+            return self.generic_visit(n)
+
+    def canon(e: ast.AST, local: set[str], once: dict[str, ast.AST]) -> str:
+        return ast.unparse(ast.fix_missing_locations(Canon(local, once).visit(copy.deepcopy(e))))
+
+    # the stems under which modules are written
+    stems: dict[str, str] = {}
+    for g in ix.all_functions:
+        if g.module is not writer_mod or g.parent is not None:
+            continue
+        once, local = _once_bound(g.node), local_names(g.node)
+        for n in ast.walk(g.node):
+            if isinstance(n, ast.BinOp) and isinstance(n.op, ast.Div):
+                r = n.right
+                for _ in range(3):
+                    if isinstance(r, ast.Name) and r.id in once:
+                        r = once[r.id]
+                if isinstance(r, ast.JoinedStr) and len(r.values) == 2 and isinstance(r.values[0], ast.FormattedValue) and \
+                        isinstance(r.values[1], ast.Constant) and r.values[1].value == ".py":
+                    stems.setdefault(canon(r.values[0].value, local, once), where(g, n))
+    rep.require(stems, "the paths `<dir> / f\"{E}.py\"` under which the builder writes document-named modules")
+    rep.floor("module_stem_derivations", len(stems), 2)
+
+    # what the environment offers to templates under a name of its own
+    offered: dict[str, tuple[list[str], ast.AST]] = {}
+    for g in ix.all_functions:
+        if g.module is not writer_mod:
+            continue
+        for c_ in ast.walk(g.node):
+            if isinstance(c_, ast.Call) and isinstance(c_.func, ast.Attribute) and c_.func.attr == "update" and norm(c_.func.value).endswith("globals"):
+                for k in c_.keywords:
+                    if k.arg and isinstance(k.value, ast.Lambda):
+                        offered[k.arg] = ([a.arg for a in k.value.args.args], k.value.body)
+    filters: dict[str, str] = {}
+    for st in writer_mod.tree.body:
+        if isinstance(st, (ast.Assign, ast.AnnAssign)) and isinstance(st.value, ast.Dict) and "FILTERS" in norm(st.targets[0] if isinstance(st, ast.Assign) else st.target):
+            for k, v in zip(st.value.keys, st.value.values):
+                if isinstance(k, ast.Constant) and isinstance(k.value, str):
+                    filters[k.value] = canon(v, set(), {})
+
+    def tpl(n: nodes.Node) -> str:
+        """the hole as a Python expression of the element at hand"""
+        if isinstance(n, nodes.Name):
+            return n.name if n.name in ("config", "utils") or n.name in offered else "_"
+        if isinstance(n, nodes.Const):
+            return repr(n.value)
+        if isinstance(n, nodes.Getattr):
+            inner = tpl(n.node)
+            return n.attr if inner in ("utils",) else f"{inner}.{n.attr}"
+        if isinstance(n, nodes.Filter) and n.node is not None and n.name in filters and not n.args and not n.kwargs:
+            return f"{filters[n.name]}({tpl(n.node)})"
+        if isinstance(n, nodes.Call) and not n.kwargs and not n.dyn_args and not n.dyn_kwargs:
+            args = [tpl(a) for a in n.args]
+            if isinstance(n.node, nodes.Name) and n.node.name in offered and len(offered[n.node.name][0]) == len(args):
+                params, body = offered[n.node.name]
+                try:
+                    binding = {p_: ast.parse(a, mode="eval").body for p_, a in zip(params, args)}
+                except SyntaxError:
+                    return expr_text(n)
+                return canon(body, set(), binding)
+            return f"{tpl(n.node)}({', '.join(args)})"
+        return expr_text(n)
+
+    n_holes = 0
+    for tn_, ti_ in sorted(jx.templates.items()):
+        if not tn_.endswith(".py.jinja"):
+            continue
+        for mname_, body_ in [("<top>", ti_.tree.body)] + [(m_.name, m_.body) for m_ in ti_.macros.values()]:
+            before = ""
+            for fr in tplq.frags(body_):
+                if fr.kind == "data":
+                    before = (before + fr.text)[-200:]
+                    continue
+                if _MODULE_HOLE.search(before):
+                    n_holes += 1
+                    got = tpl(fr.node)
+                    rep.check(got in stems, "R01.14", f"{tn_}::{mname_}::module<-{fr.text[:60]}",
+                              "template text imports a sibling module under a name that is not derived the way the builder names the files it "
+                              "writes: for names the two derivations treat differently (reserved words, leading digits / underscores) the "
+                              "import names a module that does not exist or is not an identifier (ImportError / SyntaxError)",
+                              where=f"{PKG}/templates/{tn_}:{fr.line}", lhs=got, rhs=sorted(stems))
+                before = (before + "\x00")[-200:]
+    rep.floor("module_holes_in_template_imports", n_holes, 0)  # (none today: the import lines with module names are composed in Python)
 
 
 # ---- R01.4, parameter lists ------------------------------------------------------------------------------------------------------------
